@@ -136,3 +136,18 @@ func TestVerifFindingHistorySearchIgnoresTypedText(t *testing.T) {
 		t.Errorf("history-search-backward with buffer %q: got %q, want %q", "o", got, "one")
 	}
 }
+
+// C09 (fixed 1eaff32): history-search-backward with a non-ASCII character before the cursor: the search text was
+// cut from the string form of the line at the rune cursor position, i.e. inside a UTF-8 sequence; the
+// broken prefix matched an entry that does not start with the typed text.
+func TestVerifFindingSearchPrefixBytes(t *testing.T) {
+	h, line, cur := newTestSources()
+	h.Current().Write("\u00e8xyz")
+	line.Set([]rune("\u00e9a")...)
+	cur.Set(1) // search text: the first character only
+	h.Save()
+	h.InsertMatch(nil, nil, true, false, false) // history-search-backward
+	if got := string(*line); got != "\u00e9a" {
+		t.Errorf("search text %q: buffer became %q, an entry that does not start with it", "\u00e9", got)
+	}
+}
